@@ -35,6 +35,14 @@ P['r_samplerate'] = prog([('dsp', [('a', F)], B('/', a, ('samplerate',)))])
 P['r_let'] = prog([('dsp', [('a', '(float,float)')], ('let', 'x', B('*', a0, N(2)), ('let', 'y', B('+', x, a1), ('let', 'z', B('*', y, y), B('-', V('z'), x)))))])
 P['r_tuple'] = prog([('swap', [('p', '(float,float)')], ('lettuple', ['x', 'y'], V('p'), ('tuple', [y, x]))),
                      ('dsp', [('a', '(float,float)')], C('swap', a))])
+# `_` placeholders in tuple patterns, in front of / between / behind bound names and nested
+P['r_place1'] = prog([('dsp', [('a', '(float,float)')], ('lettuple', ['_', 'y'], a, B('*', y, N(2))))])
+P['r_place2'] = prog([('dsp', [('a', '(float,float,float)')], ('lettuple', ['x', '_', 'z'], a, B('-', B('*', x, N(10)), V('z'))))])
+P['r_place3'] = prog([('mk', [('p', '(float,float)')], ('lettuple', ['_', 'q'], V('p'), ('tuple', [V('q'), ('tuple', [B('+', V('q'), N(1)), B('*', V('q'), N(3))])]))),
+                      ('dsp', [('a', '(float,float)')], ('lettuple', ['_', ['u', 'w']], C('mk', a), ('lettuple', ['k', ['_', 'm']], C('mk', ('tuple', [a1, a0])),
+                               B('+', B('+', V('u'), B('*', V('w'), N(10))), B('+', B('*', V('k'), N(100)), B('*', V('m'), N(1000)))))))])
+P['s_selfplace'] = prog([('acc', [('x', F)], ('lettuple', ['_', 'q'], ('self',), ('tuple', [B('+', V('q'), x), B('+', B('*', V('q'), N(0.5)), N(1))]))),
+                         ('dsp', [('a', F)], ('lettuple', ['_', 'v'], C('acc', a), V('v')))], self_arity={'acc': 2})
 P['r_record'] = prog([('dsp', [('a', '(float,float)')], ('let', 'r', ('record', [('freq', a0), ('amp', a1)]),
                                                       B('+', B('*', ('field', V('r'), 'freq'), ('field', V('r'), 'amp')), ('field', V('r'), 'amp'))))])
 P['r_calls'] = prog([('sq', [('x', F)], B('*', x, x)),
@@ -94,5 +102,32 @@ P['c_make'] = prog([('mk', [('g', F)], ('lambda', ['x'], B('*', x, V('g')))),
                     ('dsp', [('a', F)], ('let', 'f', C('mk', N(0.5)), ('callv', V('f'), [a])))])
 P['c_assign'] = prog([('dsp', [('a', F)], ('let', 'x', a, ('let', 'f', ('lambda', [], ('assign', 'x', B('+', x, N(1)), x)),
                                                      B('+', ('callv', V('f'), []), ('callv', V('f'), [])))))])
+
+# argument passing: tuple-valued call results as arguments, closures called with computed / tuple / computed arguments, closures
+# capturing a parameter that sits behind a tuple parameter (shapes reported by independent reviewers as miscompiled)
+P['r_tupargs'] = prog([('mk', [('x', F)], ('tuple', [x, B('*', x, N(2))])),
+                       ('comb', [('p', '(float,float)'), ('q', '(float,float)')], B('+', ('proj', V('p'), 0), B('*', ('proj', V('q'), 0), N(100)))),
+                       ('dsp', [('a', F)], C('comb', C('mk', a), C('mk', B('*', a, N(10)))))])
+P['r_tupargs2'] = prog([('mk', [('x', F)], ('tuple', [x, B('*', x, N(2))])),
+                        ('comb', [('p', '(float,float)'), ('k', F), ('q', '(float,float)')],
+                         B('+', B('+', ('proj', V('p'), 1), B('*', ('proj', V('q'), 1), N(100))), B('*', V('k'), N(10000)))),
+                        ('dsp', [('a', F)], C('comb', C('mk', a), B('+', a, N(1)), C('mk', B('*', a, N(10)))))])
+P['c_upvalarg'] = prog([('p', [('a', '(float,float)'), ('b', F)],
+                         ('let', 'c1', ('lambda', [('x', F), ('y', F)], B('+', B('+', x, y), ('proj', V('a'), 0))),
+                          ('let', 'c2', ('lambda', [], B('+', B('*', V('b'), N(100)), ('proj', V('a'), 1))),
+                           B('+', ('callv', V('c1'), [N(1), N(2)]), ('callv', V('c2'), []))))),
+                        ('dsp', [('a', F)], C('p', ('tuple', [a, N(7)]), N(9)))])
+P['c_argstage'] = prog([('one', [('x', F)], x),
+                        ('dsp', [('a', F)], ('let', 'f', ('lambda', [('u', F), ('v', '(float,float)'), ('w', F)],
+                                                          B('+', B('+', B('*', V('u'), N(1000)), B('*', ('proj', V('v'), 0), N(100))),
+                                                            B('+', B('*', ('proj', V('v'), 1), N(10)), V('w')))),
+                                             ('callv', V('f'), [C('one', a), ('tuple', [N(3), N(4)]), C('one', N(5))])))])
+# default arguments through an incomplete record: parameters are named, so the record's field order must not matter
+P['r_recdefault'] = prog([('f3', [('a', F), ('b', F), ('c', F, N(5))], B('+', B('+', B('*', V('a'), N(100)), B('*', V('b'), N(10))), V('c'))),
+                          ('dsp', [('x', F)], ('callrec', 'f3', [('a', V('x')), ('b', N(2))]))])
+P['r_recdots'] = prog([('f3', [('a', F), ('b', F), ('c', F, N(5))], B('+', B('+', B('*', V('a'), N(100)), B('*', V('b'), N(10))), V('c'))),
+                       ('dsp', [('x', F)], ('callrec', 'f3', [('a', V('x')), ('b', N(2))], 'dots'))])
+P['r_recdefault2'] = prog([('f3', [('z', F), ('a', F), ('m', F, N(5))], B('+', B('+', B('*', V('z'), N(100)), B('*', V('a'), N(10))), V('m'))),
+                           ('dsp', [('x', F)], ('callrec', 'f3', [('a', V('x')), ('z', N(2))]))])
 
 PROGRAMS = P
